@@ -8,6 +8,9 @@ from pathlib import Path
 
 VERIF = Path(__file__).resolve().parent.parent
 NOTES = {
+    "C16-r4change1": "missed at first (a sweep that visits low levels first never sees a cache keyed without the levels): per job a list of configurations that is NOT sorted is built in two new interpreters in opposite orders (harness/c16_order.py) and every skill set and damage figure must agree",
+    "C16-r4change2": "missed at first (the mechanism belongs to C20, whose quick check reports it too): the same order test also builds every configuration from the environment an in-memory memoizer shared by the list hands out",
+    "C17-r4change1": "first reported without a failing input: star force is now also computed for the same gear with ANOTHER base stat and the same reference stat -- the bonus must not change (it is computed on the gear as enhanced so far)",
     "C13-r4change2": "missed at first (same mechanism as C12-change2, which `./check C12 quick` catches): the entry damage was only compared with get_damage of its own logs; it is now also computed in the harness from the event's own figures (damage% x hits x the factor of the stat with the buff in force x the advantages)",
     "C15-r4change2": "missed at first (same mechanism as C02-change2, which `./check C02 quick` catches with a failing input): four threads now evaluate the same expressions under different bindings with a 1 microsecond switch interval and every answer must be the sequential one",
     "C19-r4change1": "first reported without a failing input: optimize() is now called a second time on the same optimizer object and must return the same state",
